@@ -125,6 +125,7 @@ CHECKS = {
         "level": "exploration",
         "assumptions": EXPLORATION_ASSUMPTIONS + ["the logger is package-global, so the check owns its process; a password is admitted only if a password-less control run of the same scenario produces no record containing it"],
         "legs": [
+            {"test": "TestC20_TLS", "quick": {"checks": 150, "timeout": "10m"}, "thorough": {"checks": 2000, "timeout": "30m"}},
             {"test": "TestC20", "quick": {"checks": 600, "timeout": "15m"},
              "thorough": {"checks": 10000, "shards": 4, "timeout": "60m"}},
             {"test": "TestC20_RateLimited", "quick": {"checks": 1, "timeout": "15m", "shrinktime": "1s"},
